@@ -247,3 +247,34 @@ CLAIMED["C10"] = {
 }
 NOT_YET = {
 }
+
+# ---- bug-hunting phase (DESIGN.md §10.10): what was added to each claim
+def _add(pid, txt):
+    CLAIMED[pid]["text"] = CLAIMED[pid]["text"].rstrip() + " " + txt
+
+_add("C02", "After the bug hunt: range_builder_valid holds for EVERY in-domain list of ranges, empty ranges included (the builder used to keep them; repaired 3c6b81c).")
+_add("C03", "The iterator of overlapped_by_iter is also judged as a RangeMOCIterator (hints at creation and after 1 and 2 next(), FITS writer fed by it): its size_hint was wrong (repaired 7641c6f).")
+_add("C04", "peek_last is proved EXACT (Src.LastExact: a node announcing a last range yields ranges and the last one ends there) for every operator tree (lazy_last_exact); XorRangeIter announced the end of the union (repaired 320c771); "
+            "a user implementation of the public CellMOCIterator trait advertising its size is one of the 9 source kinds (adapter hint repaired d5d00af).")
+_add("C05", "uniq_gen_to_range is modelled and proved to give the range of the cell for the three quantities (uniqGen_to_range; the code used the HEALPix shift for all, repaired 7c8bce4).")
+_add("C06", "rangeBuilder_sem_all: the range builder on EVERY list, empty ranges included, covers exactly the degraded non-empty ranges; every builder variant on an EMPTY list of regions gives the empty MOC of the requested depth (repaired ab6cbe9).")
+_add("C07", "A MOC id longer than a FITS card is refused with an error instead of a panic (repaired 6fedaa8).")
+CLAIMED["C08"]["text"] = CLAIMED["C08"]["text"].replace("Two open findings (outputs with overlapping element time MOCs; panics on some valid inputs).",
+    "The union was REPAIRED in /repo during the bug hunt (five local causes, commits c6c029a a7b817f 3a3fe23 0ba3fb9: depleted element flushed twice, a mistyped bound comparison, unfused / empty ranges in built elements, two states wrongly declared unreachable): "
+    "0 disagreements over 4 seeds x 1.08 million thorough operations, directed pairs and operands of different time depths included, every element judged against its own depth. One open finding: the remainder of an element is flushed "
+    "with the depth of its own operand (the repair conflicts with a unit test of the repository that asserts the defective output).")
+CLAIMED["C09"]["text"] = CLAIMED["C09"]["text"].replace("one open finding (the sweep-line builder panics on some observation lists).",
+    "the builder panics disappeared with the repair of the union. After the bug hunt the construction is proved for EVERY list of observations (Consistent2D.fromObservations, range2d_path_all_observations: empty time ranges and empty coverages "
+    "removed as a whole; the code used to shift the positions of all later observations, repaired d1dc8c2 4ba502a bc695d7), and from_time_and_coos (time used as a cell index, repaired 0997bae) and the (time range, cell) variant of the range-2D path are driven.")
+_add("C10", "The store's filter_timepos (positions in degrees) is driven against the lookup model, invalid latitudes included (degrees were hashed as radians, repaired 69ca040).")
+_add("C12", "After the bug hunt: three small synthetic sky maps (every card mutated), a pre-v2 ST-MOC file, non-ASCII bytes in string cards probed in child processes, the legality of the depth of whatever a FITS reader returns, "
+            "directed streaming-ASCII and JSON documents (numbers beyond the index type, depths the quantity does not have, non-integer elements); six reader defects repaired (95aafbb f20464d 247aa1b 6472aa3 3ea4fae and the long keyword 6fedaa8).")
+_add("C13", "Typed drops (drop_smoc/tmoc/fmoc/stmoc) are driven, on the kind of the MOC and on another one: a mismatch is an error WITHOUT effect (guard + the modelled drop in one write section; they used to destroy the MOC, repaired e735082).")
+_add("C14", "Identifiers beyond 48 bits and the status `void` are driven (refused, file unchanged, no lock left; repaired 474fcb0 0a8310c) — the refusal of such commands is command-line domain checking done in the driver, not in the Lean model.")
+_add("C15", "Positions and cones at lat = +90 and -90 degrees are driven (the north pole was rejected, repaired 34239d6).")
+_add("C16", "A reader that is ALREADY walking the file when an append completes is reproduced deterministically (undrained pipe, 16000 MOCs): it must answer with the state before or after (it crashed, repaired a3a90d0).")
+_add("C18", "tmoc_ranges_contains_exactly / fmoc_ranges_contains_exactly now hold for EVERY list of ranges, empty ones included (no cell for an empty range whatever its alignment and the index width).")
+_add("C19", "After the bug hunt: `from timerange` with empty and reversed ranges, empty lists of regions (`from cones|multi|pos`), `--moc-id` of every length around the capacity of a FITS card (repaired 3c6b81c 49f5a2b 2f9e313 6fedaa8).")
+_add("C20", "After the bug hunt the four descent theorems carry the STRICT inequality of the property (a threshold exactly on a sub-cell boundary cuts nothing and is met exactly; the code was off by a whole piece, repaired b3d1506; the model has the guards "
+            "of the repaired code and the reverse lower descent recurses into itself, d3d6aa3), the harness judges the implementation with the exact sum of the pieces really cut, thresholds on every quarter / finest-piece boundary in both density orders are generated, "
+            "and the sky-map reader is driven with skipped, UNSEEN and NaN pixels against the model (repaired 655082e). The whole-selection theorem selection_mass_bracket still states `<=`.")
